@@ -1258,6 +1258,27 @@ impl Handle {
             Handle::Loom(a) => Handle::Loom(a.clone()),
         }
     }
+    fn cleanup(&self) -> CleanupOnUnwind {
+        match self {
+            Handle::Std(a) => CleanupOnUnwind(Some(a.clone())),
+            Handle::Loom(_) => CleanupOnUnwind(None),
+        }
+    }
+}
+
+/// Every thread owns a value whose destructor "cleans up" with a loom operation when the thread unwinds (a hand-written
+/// guard that releases with an atomic store): it runs while the model fails - on the stack of the thread that panicked
+/// or noticed the deadlock, or inside the closure of a thread that was spawned but never started. It does nothing on
+/// the normal path.
+struct CleanupOnUnwind(Option<Arc<Objs>>);
+impl Drop for CleanupOnUnwind {
+    fn drop(&mut self) {
+        if std::thread::panicking() {
+            if let Some(o) = &self.0 {
+                o.atoms[1].store(9, std::sync::atomic::Ordering::SeqCst);
+            }
+        }
+    }
 }
 
 pub type SLog = Vec<(u8, u8, i64)>;
@@ -1555,7 +1576,9 @@ pub fn run_loom(p: &SProg, cfg: &SCfg) -> SRun {
             for (t, hd) in (1..n).zip(dups) {
                 let (p3, it4) = (p2.clone(), it3.clone());
                 let mut my_rx = if t == owner { rx.take() } else { None };
+                let cleanup = hd.cleanup();
                 let jh = loom::thread::spawn(move || {
+                    let _cleanup = cleanup;
                     let mut none: Vec<Option<loom::thread::JoinHandle<RxBack>>> = Vec::new();
                     let mut back = Vec::new();
                     exec(&p3, t, hd.get(), &mut my_rx, &mut none, &it4, &mut back);
@@ -1567,6 +1590,7 @@ pub fn run_loom(p: &SProg, cfg: &SCfg) -> SRun {
                 handles[t] = Some(jh);
             }
             let mut rx_back: Vec<loom::sync::mpsc::Receiver<u8>> = Vec::new();
+            let _cleanup = h.cleanup();
             exec(&p2, 0, h.get(), &mut rx, &mut handles, &it3, &mut rx_back);
             // main joins what it has not joined yet (keeps the receiver alive until every sender is done)
             for t in 1..n {
